@@ -25,8 +25,8 @@ def run_check(pid, patch, tier="quick"):
     return verdict, detail
 
 for pid in sys.argv[1:]:
-    for k in (1, 2, 3):
-        src = f"/tmp/seed/{pid}/out/change_{k}"
+    for k in range(1, 10):
+        src = os.environ.get("SEEDROOT", "/tmp/seed") + f"/{pid}/out/change_{k}"
         if not os.path.exists(f"{src}/patch.diff"):
             continue
         conf = json.load(open(f"{src}/confirm.json")) if os.path.exists(f"{src}/confirm.json") else None
